@@ -180,8 +180,8 @@ def diff_harnesses(tier, cfg):
             h = Harness(f"c20_{T.lower()}_{name}", body, backend="smt", uf=UF, extra_stubs=stubs, unwind=20,
                         desc=f"{T}::{name}: whenever the glam-assert build does not panic it returns bit-identical results to the build without assertions, all arguments", site=f"{T}::{name}", funcs=[f"{T}::{name}"], cap=200)
             h.ignore_panics = True
-            if f"{T.lower()}_{name}" in HEAVY and tier == "quick":
-                skipped.append(f"{T}::{name}: two-tree formula exceeds the quick cap (thorough tier only)")
+            if f"{T.lower()}_{name}" in HEAVY:
+                skipped.append(f"{T}::{name}: two-tree formula exceeds the caps of cvc5, z3 and the SAT reachability run (not claimed)")
                 continue
             hs.append(h)
     harnesses.skipped = skipped
